@@ -6,8 +6,9 @@
    workflows are final.
    "Never left RUNNING (or its tasks left waiting) with nothing pending" is PROVED for every
    join-free program (any forks, guards, engine commands, cycles), every outcome and uid oracle and
-   every schedule of start / message / executor / post-commit-queue deliveries
-   (C01_no_stuck_joinfree, the no-lost-wake-up invariant of Proofs/EngineLive.v).
+   every schedule of start / message / executor / post-commit-queue deliveries and operator
+   pause / resume / stop at any point (C01_no_stuck_joinfree, the no-lost-wake-up invariant of
+   Proofs/EngineLive.v; extending it to resume exposed defects F19 and F20).
    NOT proved: the same statement for programs with joins (C01_no_stuck_statement, which needs the
    graph argument relating find_indirectly_affected_task_executions to _possible_route) and the
    equality of the final view with the denotational semantics.  Both are decided by the trace
@@ -65,10 +66,11 @@ Theorem C01_final_state_is_final : forall sp s evs,
 Proof. exact success_stays. Qed.
 Print Assumptions C01_final_state_is_final.
 
-(* no lost wake-up: once nothing is pending, every task execution and the workflow are final (PAUSED
-   only by a `pause` command of the definition itself) - all join-free programs, all schedules *)
+(* no lost wake-up: once nothing is pending, every task execution is final and the workflow is
+   completed or PAUSED (by its own `pause` command or the operator; only resume leaves PAUSED and the
+   resumed run is covered again) - all join-free programs, all schedules incl. pause/resume/stop *)
 Theorem C01_no_stuck_joinfree : forall sp, nojoin sp -> forall u evs,
-  forallb plain_ev evs = true ->
+  forallb live_ev evs = true ->
   let s := run sp u evs in
   wf_created s = true -> pend s = [] ->
   (forall tid r, nth_error (tasks s) tid = Some r -> is_completed (t_state r) = true) /\
@@ -79,15 +81,24 @@ Print Assumptions C01_no_stuck_joinfree.
 Example C01_no_stuck_joinfree_nonvacuous :
   let evs := EStart :: drain_evs demo_sp (fst (step demo_sp init EStart)) 100 in
   let s := run demo_sp [] evs in
-  nojoin_b demo_sp = true /\ forallb plain_ev evs = true /\ wf_created s = true /\ pend s = [] /\
+  nojoin_b demo_sp = true /\ forallb live_ev evs = true /\ wf_created s = true /\ pend s = [] /\
   length (tasks s) = 4 /\ wf_state s = SUCCESS /\ 20 < length evs.
 Proof. exact no_stuck_joinfree_nonvacuous. Qed.
+
+Example C01_no_stuck_after_two_pauses :
+  let evs := [EStart; EFirePtq 0; EFire (IStartTask 1 true false false); EFirePtq 0; EFire (IExec 0); EFire (IResult 0 OOk);
+              EFirePtq 0; EResume; EFire (IStartTask 0 true false false); EFirePtq 0; EFire (IExec 1); EFire (IResult 1 OOk);
+              EResume; EFirePtq 0; EFire (IStartTask 0 false false true); EFirePtq 0] in
+  let s := run pause2_sp [1; 0] evs in
+  forallb live_ev evs = true /\ pend s = [] /\ length (tasks s) = 2 /\ wf_state s = SUCCESS /\
+  wf_state (run pause2_sp [1; 0] (firstn 8 evs)) = PAUSED /\ backlog (run pause2_sp [1; 0] (firstn 8 evs)) = [CRunExisting 0 true false].
+Proof. exact no_stuck_after_two_pauses. Qed.
 
 (* the unproved part of the property, kept visible: the same for programs with joins *)
 Definition quiescent (s : st) : Prop := pend s = [].
 Definition C01_no_stuck_statement : Prop :=
   forall sp u evs, let s := run sp u evs in
-  forallb plain_ev evs = true ->
+  forallb live_ev evs = true ->
   wf_created s = true -> quiescent s -> is_completed (wf_state s) = true \/ wf_state s = PAUSED.
 
 Example C01_nonvacuous :
